@@ -208,6 +208,23 @@ def run(ctx):
                 if not done:
                     ctx.ob("C16-guard", "%s::%s|no-effects" % (crate, var), True, "arm has no effects and no handler", v.where(tgt), nontrivial=False)
                 continue
+            # ... and so must every successful return of the variant's handler: "an attempt by anyone else fails", also on
+            # paths that happen to have no effect (an early `return Ok(..)` placed above the guard)
+            lib_guarded = all(library_self_guarded(model, ch, e) for ch, e, it in effects)
+            if not lib_guarded:
+                for b, c in [(b, c) for b, c, k in model.callees(root) if b in ab and c in model.fnsrc and k == "call"]:
+                    hv = model.view(c)
+                    if "Response" not in hv.fn["ret"]:
+                        continue
+                    chain = ((root, b, "call"),)
+                    bad_returns = [ob for ob in ok_return_blocks(hv) if not site_guarded(model, chain, c, ob, spec)[0]]
+                    # a successful return that merely forwards a guarded callee's result is guarded by that callee
+                    bad_returns = [ob for ob in bad_returns if not _delegates_to_guarded(model, chain, hv, ob, spec)]
+                    bad_returns = [ob for ob in bad_returns if not _after_guarded_update(model, chain, hv, ob, spec)]
+                    ctx.ob("C16-guard", "%s::%s|%s|every-ok-return" % (crate, var, c), not bad_returns,
+                           "every successful return of %s is dominated by guard %s" % (c, spec.name) if not bad_returns else
+                           "successful return(s) of %s at %s not dominated by guard %s" % (c, [hv.where(ob) for ob in bad_returns][:3], spec.name),
+                           hv.where(bad_returns[0]) if bad_returns else hv.where())
             by_key = {}
             for ch, e, it in effects:
                 if library_self_guarded(model, ch, e):
@@ -235,6 +252,49 @@ def run(ctx):
     check_hook_authorisation(ctx, model)
     check_owner_transfer(ctx, model)
     check_owner_init(ctx, model)
+
+
+def _delegates_to_guarded(model, chain, hv, ob, spec):
+    """The block returns the result of a workspace callee all of whose successful returns are guarded (the guard lives in
+    the callee, e.g. a handler that only dispatches)."""
+    t = hv.blocks[ob]["t"]
+    if t["k"] != "call" or t["dest"]["l"] != 0:
+        return False
+    from ..facts import term_callee
+    c = term_callee(t)
+    if c not in model.fnsrc:
+        return False
+    cv = model.view(c)
+    sub = chain + ((hv.path, ob, "call"),)
+    oks = ok_return_blocks(cv)
+    return bool(oks) and all(site_guarded(model, sub, c, b2, spec)[0] or _delegates_to_guarded(model, sub, cv, b2, spec) for b2 in oks)
+
+
+def _after_guarded_update(model, chain, hv, ob, spec):
+    """The return lies behind the success edge of `ITEM.update(.., closure)?` whose closure is guarded on all its
+    non-error returns (an unauthorised caller makes the closure fail, `?` propagates it)."""
+    from ..mir import try_edges, storage_call
+    from ..effects import Effect
+    edges = []
+    for b in sorted(hv.live_blocks()):
+        te = try_edges(hv, b)
+        if not te:
+            continue
+        cont, brk, bblock, inner = te
+        for o in hv.origins_of_operand(inner, at=hv.at_term(bblock)):
+            if o.kind != "load":
+                continue
+            # the provenance of an `update` result is a load of the item; find the update call feeding this `?`
+            for ub, ut in hv.iter_calls():
+                sc = storage_call(ut)
+                if sc and sc[1] == "update" and bblock in hv.reach_strict(ub) | {ub}:
+                    class _E:
+                        pass
+                    e = _E()
+                    e.fn, e.block = hv.path, ub
+                    if closure_update_guarded(model, chain, e, spec)[0]:
+                        edges += cont
+    return bool(edges) and hv.edge_dominated(ob, edges)
 
 
 def closure_update_guarded(model, chain, e, spec):
